@@ -387,6 +387,48 @@ def run(ctx):
                 (nm, args), = got.items()
                 if isinstance(args, list) and len(args) == 2 and canon(args) != canon(want) and not ({"literal": "it's"} in want and nm in ("like", "not_like", "ilike", "not_ilike", "rlike", "not_rlike", "regexp", "not_regexp", "similar_to", "not_similar_to")):
                     ctx.violation("input", dict(sql="select " + sql, returned=short(v, 300), requires="operands %r, in this order, exactly as written" % (want,)))
+    # CASE / CAST / :: / calls: the tree of the compound form is assembled from the trees of its parts, nothing folded or reordered on the way
+    # (a comparand NULL of a simple CASE stays an eq with NULL: SQL compares with =, which is never true for NULL)
+    subs = ["x1", "x2 + 3", "x3 * x4 - 1", "'s'", "x5 and x6", "7", "x7 || x8", "not x9", "(x1 + x2) * 2", "null"]
+    def J(e):
+        st, v = impl.outcome(impl.M.parse, "select " + e)
+        return v["select"]["value"] if st == "ok" else None
+    forms = []
+    for _ in range(ctx.n(60, 600)):
+        e1, e2, e3 = (rnd.choice(subs) for _ in range(3))
+        j1, j2, j3 = J(e1), J(e2), J(e3)
+        if None in (j1, j2, j3):
+            continue
+        kind = rnd.randrange(9)
+        if kind == 0:
+            forms.append(("case when %s then %s else %s end" % (e1, e2, e3), {"case": [{"when": j1, "then": j2}, j3]}))
+        elif kind == 1:
+            forms.append(("case when %s then %s when %s then %s end" % (e1, e2, e3, e1), {"case": [{"when": j1, "then": j2}, {"when": j3, "then": j1}]}))
+        elif kind == 2 and e1 != "null":
+            forms.append(("case %s when %s then %s end" % (e1, e2, e3), {"case": {"when": {"eq": [j1, j2]}, "then": j3}}))
+        elif kind == 3 and e1 != "null":
+            forms.append(("case %s when %s then %s when null then %s else %s end" % (e1, e2, e3, e2, e1),
+                          {"case": [{"when": {"eq": [j1, j2]}, "then": j3}, {"when": {"eq": [j1, {"null": {}}]}, "then": j2}, j1]}))
+        elif kind == 4 and e1 != "null":
+            forms.append(("case %s when (null) then %s else %s end" % (e1, e2, e3), {"case": [{"when": {"eq": [j1, {"null": {}}]}, "then": j2}, j3]}))
+        elif kind == 5:
+            ty, tj = rnd.choice([("int", {"int": {}}), ("varchar(10)", {"varchar": 10}), ("decimal(8, 2)", {"decimal": [8, 2]}), ("double", {"double": {}})])
+            forms.append(("cast(%s as %s)" % (e1, ty), {"cast": [j1, tj]}))
+            forms.append(("(%s)::%s" % (e1, ty), {"cast": [j1, tj]}))
+        elif kind == 6:
+            forms.append(("fn1(%s, %s, %s)" % (e1, e2, e3), {"fn1": [j1, j2, j3]}))
+            forms.append(("fn2()", {"fn2": {}}))
+        elif kind == 7 and e1 != "null":
+            forms.append(("fn3(%s)" % e1, {"fn3": j1}))
+        elif kind == 8:
+            forms.append(("fn4(%s, %s) + %s" % (e1, e2, "x1"), {"add": [{"fn4": [j1, j2]}, "x1"]}))
+    for sql, want in forms:
+        st, v = impl.outcome(impl.M.parse, "select " + sql)
+        ctx.count(1, ("compound", sql))
+        if st == "ok" and canon(v["select"]["value"]) != canon(want):
+            ctx.violation("input", dict(sql="select " + sql, returned=short(v, 500), requires="the compound form assembled from the trees of its parts: " + short(want, 500)))
+        elif st != "ok":
+            ctx.violation("input", dict(sql="select " + sql, returned=[st, str(v)], requires="accepted: " + short(want, 500)))
     # new table triples: concretise
     for (P, s, C) in [t for t in bad if (lab(t[0]), t[1], lab(t[2])) in new][:20]:
         eP, eC = T["entries"][P], T["entries"][C]
